@@ -42,16 +42,14 @@ Example C18_ex :
 Proof. vm_compute. repeat split; try reflexivity; discriminate. Qed.
 
 (* ------------------------------------------------------------------------------------
-   Unbounded part: trivia next to trivia, for EVERY token list (induction over the main
-   loop; no bound on the length, no restriction of the alphabet).
+   Unbounded part: whitespace / annotation / comment-line rewrites, for EVERY token list
+   (induction over the main loop; no bound on the length, no restriction of the alphabet,
+   no condition on where in the program the rewrite is applied).
 
-   [trivia_runs_equivalent_at pre post] (Spec/LayoutSim.v): for all non-empty runs d, d'
-   of whitespace / annotation / line-annotation tokens that both contain a whitespace
-   token or both contain none,
-     opt_gtree_eqb (parse_tree (pre ++ d ++ post)) (parse_tree (pre ++ d' ++ post)) = true
-   -- same acceptance and the same tree modulo token indices.  [has_sig l]: l has a token
-   that trim_tokens keeps (the gap is not at either end of the program; at the ends an
-   annotation shields a blank-line separator from trimming, see the examples below). *)
+   [trivia_run d]: d is a non-empty run of whitespace / annotation / line-annotation
+   tokens; [has_ws d]: it contains a whitespace token (Spec/LayoutSim.v).
+   [has_sig l]: l has a token that trim_tokens keeps, i.e. one that is not whitespace, a
+   blank-line separator, an annotation or a comment line. *)
 
 (* the parser's main loop cannot tell token indices apart: related states stay related *)
 Theorem C18_step_ignores_token_indices : forall n i n' i' tok st st',
@@ -60,7 +58,8 @@ Theorem C18_step_ignores_token_indices : forall n i n' i' tok st st',
 Proof. exact step_congr. Qed.
 Print Assumptions C18_step_ignores_token_indices.
 
-(* whitespace and blank-line separators at either end of the program are ignored *)
+(* whitespace, blank-line separators, annotations and comment lines at either end of the
+   program are ignored *)
 Theorem C18_trim_ends : forall a s b : list token_type,
   has_sig a = false -> has_sig b = false -> parse_tree (a ++ s ++ b) = parse_tree s.
 Proof. exact parse_tree_trim_ends. Qed.
@@ -69,63 +68,59 @@ Print Assumptions C18_trim_ends.
 (* Before its first real work on a token, [step] moves last_left from a closed side-effect
    block that hangs under a parent and took no left operand to that parent.
    [settled_after pre] (Spec/LayoutSim.v): in the state after the prefix [pre], doing that
-   once more changes nothing.  It holds after EVERY prefix (parser-state invariant: node ids grow,
-   everything created after an open group hangs inside it, so the parent walk never climbs
-   past the innermost open group, open groups are never re-parented, and a side-effect
-   block under a left-less side-effect block is under the enclosing one) *)
+   once more changes nothing.  It holds after EVERY prefix (parser-state invariant: node ids
+   grow, everything created after an open group hangs inside it, so the parent walk never
+   climbs past the innermost open group, open groups are never re-parented, and a
+   side-effect block under a left-less side-effect block is under the enclosing one) *)
 Theorem C18_settled_always : forall pre : list token_type, settled_after pre.
 Proof. exact settled_always. Qed.
 Print Assumptions C18_settled_always.
 
-(* between the same tokens, two trivia runs of the same kind are indistinguishable: every
-   token list, only the two "not at the end of the program" hypotheses *)
-Theorem C18_trivia_runs_full : forall pre post : list token_type,
-  has_sig pre = true -> has_sig post = true ->
-  forall d d' : list token_type,
-    trivia_run d = true -> trivia_run d' = true -> has_ws d = has_ws d' ->
-    opt_gtree_eqb (parse_tree (pre ++ d ++ post)) (parse_tree (pre ++ d' ++ post)) = true.
-Proof. exact trivia_runs_statement_holds. Qed.
+(* between the same tokens (or at either end of the program), two trivia runs of the same
+   kind are indistinguishable: same acceptance, same tree *)
+Theorem C18_trivia_runs_full : forall pre post d d' : list token_type,
+  trivia_run d = true -> trivia_run d' = true -> has_ws d = has_ws d' ->
+  opt_gtree_eqb (parse_tree (pre ++ d ++ post)) (parse_tree (pre ++ d' ++ post)) = true.
+Proof. exact trivia_runs_everywhere. Qed.
 Print Assumptions C18_trivia_runs_full.
 
 (* the named rewrites: an annotation (or comment line) next to whitespace is invisible *)
 Theorem C18_annotation_next_to_whitespace_full : forall (pre post : list token_type) (a : token_type),
-  has_sig pre = true -> has_sig post = true -> is_annotation_tok a = true ->
+  is_annotation_tok a = true ->
   opt_gtree_eqb (parse_tree (pre ++ [TT_Whitespace] ++ post))
                 (parse_tree (pre ++ [TT_Whitespace; a; TT_Whitespace] ++ post)) = true /\
   opt_gtree_eqb (parse_tree (pre ++ [TT_Whitespace] ++ post))
                 (parse_tree (pre ++ [a; TT_Whitespace] ++ post)) = true /\
   opt_gtree_eqb (parse_tree (pre ++ [TT_Whitespace] ++ post))
                 (parse_tree (pre ++ [TT_Whitespace; a] ++ post)) = true.
-Proof. exact annotation_next_to_whitespace_always. Qed.
+Proof. exact annotation_next_to_whitespace_everywhere. Qed.
 Print Assumptions C18_annotation_next_to_whitespace_full.
 
 (* ... and any number of adjacent whitespace tokens behaves as one *)
 Theorem C18_whitespace_repetition_full : forall (pre post : list token_type) (k : nat),
-  has_sig pre = true -> has_sig post = true ->
   opt_gtree_eqb (parse_tree (pre ++ [TT_Whitespace] ++ post))
                 (parse_tree (pre ++ repeat TT_Whitespace (S k) ++ post)) = true.
-Proof. exact whitespace_repetition_always. Qed.
+Proof. exact whitespace_repetition_everywhere. Qed.
 Print Assumptions C18_whitespace_repetition_full.
 
-(* an annotation or comment line inserted ANYWHERE inside an accepted program (with or
-   without whitespace in that gap, e.g. a comment line right after a blank line): still
-   accepted, same tree.  One direction only: `5 []()` is a composition error while
-   `5 []@a()` is accepted (example below) *)
+(* an annotation or comment line inserted ANYWHERE in an accepted program (with or without
+   whitespace in that gap, e.g. a comment line right after a blank line, a header comment
+   before a blank line): still accepted, same tree.  One direction only: `5 [](1)` is a
+   composition error while `5 []@a(1)` is accepted (example below) *)
 Theorem C18_annotation_insert_full : forall (pre post : list token_type) (a : token_type) (t : gtree),
-  has_sig pre = true -> has_sig post = true -> is_annotation_tok a = true ->
+  is_annotation_tok a = true ->
   parse_tree (pre ++ post) = Some t -> parse_tree (pre ++ [a] ++ post) = Some t.
-Proof. exact annotation_insert_always. Qed.
+Proof. exact annotation_insert_everywhere. Qed.
 Print Assumptions C18_annotation_insert_full.
 
-(* non-vacuity.  `(5+a) 7 (b,3)`: 13 tokens, two groups, a space list of three items.  The
-   hypotheses of the unbounded theorem hold at its first gap, the program is accepted, and
-   the theorem's conclusion is the concrete fact that a comment in that gap is invisible *)
+(* non-vacuity.  `(5+a) 7 (b,3)`: 13 tokens, two groups, a space list of three items; the
+   program is accepted, and the theorem's conclusion is the concrete fact that a comment
+   in its first gap is invisible *)
 Definition ex_pre : list token_type :=
   [TT_StartGroup; TT_Number; TT_PlusSign; TT_Identifier; TT_EndGroup].
 Definition ex_post : list token_type :=
   [TT_Number; TT_Whitespace; TT_StartGroup; TT_Identifier; TT_Comma; TT_Number; TT_EndGroup].
 Example C18_ex_unbounded_hypotheses :
-  has_sig ex_pre = true /\ has_sig ex_post = true /\
   trivia_run [TT_Whitespace; TT_LineAnnotation; TT_Whitespace] = true /\
   parse_tree (ex_pre ++ [TT_Whitespace] ++ ex_post) <> None /\
   (exists l x r, parse_tree (ex_pre ++ [TT_Whitespace] ++ ex_post) = Some (GN D_List (GN D_List l x) r)).
@@ -136,9 +131,7 @@ Qed.
 Example C18_ex_unbounded_instance :
   opt_gtree_eqb (parse_tree (ex_pre ++ [TT_Whitespace] ++ ex_post))
                 (parse_tree (ex_pre ++ [TT_Whitespace; TT_LineAnnotation; TT_Whitespace] ++ ex_post)) = true.
-Proof.
-  apply C18_trivia_runs_full; reflexivity.
-Qed.
+Proof. apply C18_trivia_runs_full; reflexivity. Qed.
 (* a gap right after a side-effect block: `5 [1] 7 (2)` with a comment in the gap after `]` *)
 Definition ex_pre3 : list token_type :=
   [TT_Number; TT_Whitespace; TT_StartSideEffect; TT_Number; TT_EndSideEffect].
@@ -152,49 +145,54 @@ Proof.
   apply C18_trivia_runs_full; reflexivity.
 Qed.
 (* the comparison is discriminating: replacing the whitespace by an annotation alone (a
-   run of the other kind) or removing it is NOT covered and does change the outcome; and
-   at the end of the program an annotation is not transparent (it shields the blank-line
-   separator from trim_tokens) -- hence the has_sig hypotheses *)
+   run of the other kind) or removing it is NOT covered and does change the outcome *)
 Example C18_ex_discriminating :
   opt_gtree_eqb (parse_tree (ex_pre ++ [TT_Whitespace] ++ ex_post))
                 (parse_tree (ex_pre ++ [TT_Annotation] ++ ex_post)) = false /\
   opt_gtree_eqb (parse_tree (ex_pre ++ [TT_Whitespace] ++ ex_post))
                 (parse_tree (ex_pre ++ ex_post)) = false /\
-  has_ws [TT_Whitespace] <> has_ws [TT_Annotation] /\
-  opt_gtree_eqb (parse_tree [TT_Number; TT_Subexpression; TT_Whitespace])
-                (parse_tree [TT_Number; TT_Subexpression; TT_Whitespace; TT_Annotation]) = false /\
-  has_sig [] = false.
+  has_ws [TT_Whitespace] <> has_ws [TT_Annotation].
 Proof. vm_compute. repeat split; try reflexivity; discriminate. Qed.
 
 (* `(5+a) 7 <blank line> (b,3)` with a comment line put right after the blank line (no
-   whitespace in that gap): hypotheses of C18_annotation_insert_full hold, the
-   program is accepted; and the converse direction really fails *)
+   whitespace in that gap): the program is accepted and stays the same; the converse
+   direction of C18_annotation_insert_full really fails *)
 Definition ex_pre2 : list token_type :=
   [TT_StartGroup; TT_Number; TT_PlusSign; TT_Identifier; TT_EndGroup; TT_Whitespace; TT_Number; TT_Subexpression].
 Definition ex_post2 : list token_type := [TT_StartGroup; TT_Identifier; TT_Comma; TT_Number; TT_EndGroup].
 Example C18_ex_insert :
-  has_sig ex_pre2 = true /\ has_sig ex_post2 = true /\
   (exists l r, parse_tree (ex_pre2 ++ ex_post2) = Some (GN D_Subexpression l r)) /\
   parse_tree (ex_pre2 ++ [TT_LineAnnotation] ++ ex_post2) = parse_tree (ex_pre2 ++ ex_post2).
 Proof.
-  split; [reflexivity|]. split; [reflexivity|]. split.
+  split.
   - vm_compute. eexists _, _. reflexivity.
   - destruct (parse_tree (ex_pre2 ++ ex_post2)) as [t|] eqn:E; [|vm_compute in E; discriminate E].
-    apply (C18_annotation_insert_full ex_pre2 ex_post2 TT_LineAnnotation t); try reflexivity. exact E.
+    apply (C18_annotation_insert_full ex_pre2 ex_post2 TT_LineAnnotation t); [reflexivity|exact E].
 Qed.
 Example C18_ex_insert_one_direction :
-  parse_tree [TT_Number; TT_Whitespace; TT_StartSideEffect; TT_EndSideEffect; TT_StartGroup; TT_EndGroup] = None /\
-  parse_tree [TT_Number; TT_Whitespace; TT_StartSideEffect; TT_EndSideEffect; TT_Annotation; TT_StartGroup; TT_EndGroup]
+  parse_tree [TT_Number; TT_Whitespace; TT_StartSideEffect; TT_EndSideEffect; TT_StartGroup; TT_Number; TT_EndGroup] = None /\
+  parse_tree [TT_Number; TT_Whitespace; TT_StartSideEffect; TT_EndSideEffect; TT_Annotation; TT_StartGroup; TT_Number; TT_EndGroup]
     <> None.
 Proof. vm_compute. split; [reflexivity|discriminate]. Qed.
 
-(* what stays bounded, and why: beyond three tokens "any two accepted whitespace spellings
-   give the same tree" is FALSE of the model (and of the parser: `[1][2]5` is 5, `[1][2] 5`
-   builds a list and fails at run time) -- after two adjacent side-effect blocks the
-   second block has a left child, the space-list check takes it for a value, and the
-   whitespace becomes the list operator *)
-Example C18_whitespace_spelling_unbounded_refuted :
-  (exists a b, parse_tree [TT_StartSideEffect; TT_EndSideEffect; TT_StartSideEffect; TT_EndSideEffect; TT_Number] = Some a /\
-               parse_tree [TT_StartSideEffect; TT_EndSideEffect; TT_StartSideEffect; TT_EndSideEffect; TT_Whitespace; TT_Number] = Some b /\
-               gtree_eqb a b = false).
-Proof. eexists _, _. vm_compute. repeat split; reflexivity. Qed.
+(* regression examples for two repaired defects of the parser (found while testing these
+   statements, see known_findings.json):
+   - an annotation at either end of the program used to shield a blank-line separator from
+     trim_tokens: `5 <blank line> @a` was Subexpression(5, -) and did not build, a header
+     comment followed by blank lines gave Subexpression(-, 5);
+   - after two adjacent side-effect blocks whitespace used to become the list operator:
+     `[][]5` was 5 but `[][] 5` a list that failed at run time.
+   Both pairs now agree *)
+Example C18_annotation_at_the_ends_former_refuted :
+  parse_tree [TT_Number; TT_Subexpression; TT_Whitespace; TT_Annotation] = parse_tree [TT_Number] /\
+  parse_tree [TT_LineAnnotation; TT_Subexpression; TT_Number] = parse_tree [TT_Number] /\
+  parse_tree [TT_Number] <> None.
+Proof. vm_compute. repeat split; try reflexivity; discriminate. Qed.
+Example C18_whitespace_after_blocks_former_refuted :
+  parse_tree [TT_StartSideEffect; TT_EndSideEffect; TT_StartSideEffect; TT_EndSideEffect; TT_Whitespace; TT_Number] =
+  parse_tree [TT_StartSideEffect; TT_EndSideEffect; TT_StartSideEffect; TT_EndSideEffect; TT_Number] /\
+  parse_tree [TT_StartSideEffect; TT_EndSideEffect; TT_StartSideEffect; TT_EndSideEffect; TT_Number] <> None /\
+  (exists l r, parse_tree [TT_Number; TT_Whitespace; TT_StartSideEffect; TT_Number; TT_EndSideEffect;
+                           TT_StartSideEffect; TT_Number; TT_EndSideEffect; TT_Whitespace; TT_Number]
+               = Some (GN D_List l r)).
+Proof. vm_compute. repeat split; try reflexivity; try discriminate. eexists _, _. reflexivity. Qed.
